@@ -731,6 +731,357 @@ Proof.
 Qed.
 End GV2.
 
+(* ---- what one GC step does to the data files, whatever the tree says ---- *)
+Lemma hints_set_chunks cf b h key ver vh p rs gc c : chunk_at (hints_set cf b h key ver vh p rs gc) c = chunk_at b c.
+Proof.
+  unfold hints_set. rewrite (core_chunk_at _ _ c (hints_set_item_core cf _ _ _ _)). destruct (ct_has_hash (b_ctab b) h); reflexivity.
+Qed.
+
+Definition rec_dropped (st st' : gcst) : Prop :=
+  gc_dst st' = gc_dst st /\ forall c, chunk_at (gc_b st') c = chunk_at (gc_b st) c.
+Definition rec_appended (st st' : gcst) (r : drec) : Prop :=
+  gc_dst st' = gc_dst st /\
+  forall c, chunk_at (gc_b st') c = if Nat.eqb c (gc_dst st) then append_gc_chunk (chunk_at (gc_b st) (gc_dst st)) r else chunk_at (gc_b st) c.
+Definition rec_switched (cf : cfg) (src : nat) (st st' : gcst) (r : drec) : Prop :=
+  let D := gc_dst st in let b := gc_b st in
+  c_filemax cf < dsize r + k_whead (chunk_at b D) /\ gc_dst st' = S D /\
+  forall c, chunk_at (gc_b st') c =
+            if Nat.eqb c (S D) then append_gc_chunk (begin_gc_chunk (chunk_at b (S D)) (Nat.eqb (S D) src)) r
+            else if Nat.eqb c D then end_gc_chunk (chunk_at b D) else chunk_at b c.
+
+Lemma gc_record_shape cf hf begin_ src st e :
+  let st' := gc_record cf hf begin_ src st e in
+  rec_dropped st st' \/ rec_appended st st' (snd e) \/ rec_switched cf src st st' (snd e).
+Proof.
+  cbv zeta. destruct e as [off r]. cbn [snd]. set (b := gc_b st). set (D := gc_dst st). set (h := hf (d_key r)). set (oldp := mkPos src off).
+  assert (Hdrop : forall gs', rec_dropped st (mkGC b D gs')) by (intros gs'; split; [reflexivity|intros c; reflexivity]).
+  assert (Hcopy : forall gs' vh (found : option slot),
+     let st' := (let '(b1, dst) := if c_filemax cf <? dsize r + k_whead (chunk_at b D)
+                           then (begin_gc_writing (trydump (end_gc_writing b D) D true) (S D) src, S D) else (b, D) in
+         let '(b2, noff) := append_gc b1 dst r in
+         let b3 := match found with
+                   | Some _ => match tree_get_slot b2 h with
+                               | Some s => if gc_repoint_conditional && negb (pos_eqb (s_pos s) oldp) then b2
+                                           else tree_put b2 h (mkSlot (mkPos dst noff) (s_ver s) (s_vh s))
+                               | None => b2 end
+                   | None => b2 end in
+         mkGC (hints_set cf b3 h (d_key r) (d_ver r) vh (mkPos dst noff) (dsize r) true) dst gs') in
+     rec_appended st st' r \/ rec_switched cf src st st' r).
+  { intros gs' vh found. cbv zeta. destruct (c_filemax cf <? dsize r + k_whead (chunk_at b D)) eqn:Efull.
+    - right. rewrite append_gc_eq. split; [fold b D; lia|]. split; [reflexivity|]. intros c. cbn [gc_b]. rewrite hints_set_chunks.
+      set (b1 := begin_gc_writing (trydump (end_gc_writing b D) D true) (S D) src).
+      set (b2 := set_chunk b1 (S D) (append_gc_chunk (chunk_at b1 (S D)) r)).
+      assert (E : forall b3, (b3 = b2 \/ exists s, b3 = tree_put b2 h s) -> chunk_at b3 c = chunk_at b2 c) by (intros b3 [->|[s ->]]; reflexivity).
+      rewrite E by (destruct found; [destruct (tree_get_slot b2 h); [destruct (_ && _); [now left|right; eauto]|now left]|now left]).
+      unfold b2, b1. rewrite begin_gc_eq, end_gc_eq. fold b D.
+      destruct (Nat.eqb_spec c (S D)) as [->|Hne]; [rewrite !chunk_at_set_same; rewrite (core_chunk_at _ _ (S D) (trydump_core _ D true)); rewrite chunk_at_set_other by lia; reflexivity|].
+      rewrite !chunk_at_set_other by congruence. rewrite (core_chunk_at _ _ c (trydump_core _ D true)).
+      destruct (Nat.eqb_spec c D) as [->|Hne2]; [apply chunk_at_set_same|apply chunk_at_set_other; congruence].
+    - left. rewrite append_gc_eq. split; [reflexivity|]. intros c. cbn [gc_b]. rewrite hints_set_chunks.
+      set (b2 := set_chunk b D (append_gc_chunk (chunk_at b D) r)).
+      assert (E : forall b3, (b3 = b2 \/ exists s, b3 = tree_put b2 h s) -> chunk_at b3 c = chunk_at b2 c) by (intros b3 [->|[s ->]]; reflexivity).
+      rewrite E by (destruct found; [destruct (tree_get_slot b2 h); [destruct (_ && _); [now left|right; eauto]|now left]|now left]).
+      unfold b2. fold b D. destruct (Nat.eqb_spec c D) as [->|Hne]; [apply chunk_at_set_same|apply chunk_at_set_other; congruence]. }
+  unfold gc_record. fold b D h oldp.
+  destruct (tree_get_slot b h) as [s|] eqn:Es.
+  - destruct (pos_eqb oldp (s_pos s)) eqn:Ep.
+    + cbn [negb]. right. apply (Hcopy _ _ (Some s)).
+    + destruct (get_collision_gc b h (d_key r)) as [[[it ck]|] []]; try (cbn [negb]; left; apply Hdrop).
+      * destruct (pos_eqb (mkPos ck (hi_off it)) oldp); cbn [negb]; [right; apply (Hcopy _ _ (Some s))|left; apply Hdrop].
+      * cbn [negb]. right. apply (Hcopy _ _ (Some s)).
+  - destruct (Nat.ltb 0 begin_ && (d_ver r <? 0)%Z); cbn [negb]; [right; apply (Hcopy _ _ None)|left; apply Hdrop].
+Qed.
+
+(* ================================================================ C18: what the pass leaves in the files it writes *)
+Section GV2b.
+Variable cf : cfg.
+Variable hf : bytes -> N.
+Variable K : list bytes.
+Hypothesis hf_inj : forall k1 k2, In k1 K -> In k2 K -> hf k1 = hf k2 -> k1 = k2.
+Hypothesis cap_pos : 0 < c_splitcap cf.
+Variable b0 : bucket.
+Variable begin_ : nat.
+Variable dst0 : nat.      (* destination chosen when the pass starts *)
+Variable W0 : N.          (* its writing head at that moment *)
+
+(* records written by this pass: in the destinations used so far, above the starting point, below the writing head *)
+Definition in_region (D : nat) (W : N) (c : nat) (e : N * drec) : Prop :=
+  (dst0 <= c <= D)%nat /\ (c = dst0 -> W0 <= fst e) /\ (c = D -> rend e <= W).
+
+(* such a record is the current record of its key, or a tombstone of a key the tree has forgotten *)
+Definition cur_or_tomb (b : bucket) (c : nat) (e : N * drec) : Prop :=
+  (exists s, tree_get_slot b (hf (d_key (snd e))) = Some s /\ s_pos s = mkPos c (fst e)) \/
+  (tree_get_slot b (hf (d_key (snd e))) = None /\ (d_ver (snd e) < 0)%Z /\ (0 < begin_)%nat).
+
+Definition GC2 (st : gcst) : Prop :=
+  forall c e, In e (k_disk (chunk_at (gc_b st) c)) ->
+              in_region (gc_dst st) (k_whead (chunk_at (gc_b st) (gc_dst st))) c e -> cur_or_tomb (gc_b st) c e.
+
+Lemma gc2_frame b' D stat' st : gc_dst st = D -> core b' = core (gc_b st) -> GC2 st -> GC2 (mkGC b' D stat').
+Proof.
+  intros HD Hcore H c e Hin Hr. cbn [gc_b gc_dst] in *. subst D.
+  rewrite (core_chunk_at _ _ c Hcore) in Hin. rewrite (core_chunk_at _ _ (gc_dst st) Hcore) in Hr.
+  destruct (H c e Hin Hr) as [(s & Hs & Hp)|[Hn Hv]]; [left; exists s|right]; rewrite (core_tree _ _ _ Hcore); auto.
+Qed.
+
+Lemma gc2_switch st src off r R' :
+  GI cf hf K b0 st src ((off, r) :: R') -> GX b0 st -> GC2 st ->
+  c_filemax cf < dsize r + k_whead (chunk_at (gc_b st) (gc_dst st)) ->
+  let D := gc_dst st in
+  GC2 (mkGC (begin_gc_writing (trydump (end_gc_writing (gc_b st) D) D true) (S D) src) (S D) (gc_stat st)).
+Proof.
+  intros HG [X1 _] H2 Hfull. cbv zeta. pose proof HG as (_ & _ & _ & G4 & G5 & G6 & G7 & G8 & _). cbv zeta in G4, G5, G6, G7, G8, X1.
+  destruct (gi_switch cf hf K cap_pos b0 st src off r R' HG Hfull) as (_ & HW0 & Htr). cbv zeta in HW0, Htr.
+  set (b := gc_b st) in *. set (D := gc_dst st) in *.
+  assert (HDlt : (D < b_head b0)%nat) by lia.
+  destruct (end_gc_chunk_facts (chunk_at b D) (G4 D HDlt) G7 G8) as (_ & _ & _ & E4 & E5 & _). cbv zeta in E4, E5.
+  destruct (E5 X1) as [E5a _].
+  rewrite end_gc_eq, begin_gc_eq in *.
+  set (b1 := set_chunk b D (end_gc_chunk (chunk_at b D))) in *.
+  pose proof (trydump_core b1 D true) as Hcore. set (b2 := trydump b1 D true) in *.
+  set (b3 := set_chunk b2 (S D) (begin_gc_chunk (chunk_at b2 (S D)) (Nat.eqb (S D) src))) in *.
+  intros c e Hin Hr. cbn [gc_b gc_dst] in *. rewrite HW0 in Hr. destruct Hr as (Hr1 & Hr2 & Hr3).
+  assert (Hc : c <> S D) by (intros E; specialize (Hr3 E); unfold rend in Hr3; pose proof (dsize_pos (snd e)); lia).
+  assert (Hin1 : In e (k_disk (chunk_at b1 c))).
+  { unfold b3 in Hin. rewrite chunk_at_set_other in Hin by congruence. now rewrite (core_chunk_at b2 b1 c Hcore) in Hin. }
+  assert (Hold : In e (k_disk (chunk_at b c)) /\ in_region D (k_whead (chunk_at b D)) c e).
+  { unfold b1 in Hin1. destruct (Nat.eq_dec D c) as [<-|Hne].
+    - rewrite chunk_at_set_same in Hin1. split; [now apply E4|]. split; [lia|]. split; [exact Hr2|]. intros _.
+      rewrite Forall_forall in E5a. specialize (E5a e Hin1). now rewrite (proj2 (proj2 (proj2 (proj2 (proj2 (end_gc_chunk_facts (chunk_at b D) (G4 D HDlt) G7 G8)))))) in E5a.
+    - rewrite chunk_at_set_other in Hin1 by exact Hne. split; [exact Hin1|]. split; [lia|]. split; [exact Hr2|]. intros E. congruence. }
+  destruct (H2 c e (proj1 Hold) (proj2 Hold)) as [(s & Hs & Hp)|[Hn Hv]]; [left; exists s|right]; rewrite Htr; auto.
+Qed.
+Lemma gc2_append st src off r R' gs' vh :
+  GI cf hf K b0 st src ((off, r) :: R') -> GC2 st ->
+  let b := gc_b st in let D := gc_dst st in let W := k_whead (chunk_at b D) in let h := hf (d_key r) in
+  (forall s, tree_get_slot b h = Some s -> s_pos s = mkPos src off) ->
+  (tree_get_slot b h = None -> (d_ver r < 0)%Z /\ (0 < begin_)%nat) ->
+  let b2 := fst (append_gc b D r) in
+  let b3 := match tree_get_slot b h with Some s => tree_put b2 h (mkSlot (mkPos D W) (s_ver s) (s_vh s)) | None => b2 end in
+  GC2 (mkGC (hints_set cf b3 h (d_key r) (d_ver r) vh (mkPos D W) (dsize r) true) D gs').
+Proof.
+  intros HG H2. pose proof HG as (G1 & G2 & G3 & G4 & G5 & G6 & G7 & G8 & G9 & G10 & G11 & G12 & G13 & G14 & G15 & G16). cbv zeta in *.
+  set (b := gc_b st) in *. set (D := gc_dst st) in *. set (kd := chunk_at b D) in *. set (W := k_whead kd) in *. set (h := hf (d_key r)).
+  intros Hslot Htomb. pose proof (dsize_pos r) as Hsz.
+  assert (HDlt : (D < b_head b0)%nat) by lia.
+  destruct (append_gc_chunk_facts kd r (G4 D HDlt) G7) as (F1 & F2 & F3 & F4 & F5 & F6 & F7 & F8). cbv zeta in F1, F2, F3, F4, F5, F6, F7, F8.
+  rewrite append_gc_eq. cbn [fst]. fold kd.
+  set (b2 := set_chunk b D (append_gc_chunk kd r)).
+  set (b3 := match tree_get_slot b h with Some s => tree_put b2 h (mkSlot (mkPos D W) (s_ver s) (s_vh s)) | None => b2 end).
+  assert (Hct3 : b_ctab b3 = []) by (unfold b3; destruct (tree_get_slot b h); exact G2).
+  unfold hints_set. replace (ct_has_hash (b_ctab b3) h) with false by (now rewrite Hct3).
+  set (it := mkHI h 0 (p_off (mkPos D W)) (d_ver r) vh (d_key r)).
+  pose proof (hints_set_item_core cf b3 it (p_chunk (mkPos D W)) (dsize r)) as Hcore.
+  set (b4 := hints_set_item cf b3 it (p_chunk (mkPos D W)) (dsize r)) in *.
+  assert (Hch4 : forall c, chunk_at b4 c = if Nat.eqb c D then append_gc_chunk kd r else chunk_at b c).
+  { intros c. rewrite (core_chunk_at b4 b3 c Hcore). assert (E : chunk_at b3 c = chunk_at b2 c) by (unfold b3; destruct (tree_get_slot b h); reflexivity).
+    rewrite E. unfold b2. destruct (Nat.eqb_spec c D) as [->|Hne]; [apply chunk_at_set_same|]. apply chunk_at_set_other. congruence. }
+  assert (Htree4 : forall h', tree_get_slot b4 h' = if N.eqb h' h then match tree_get_slot b h with Some s => Some (mkSlot (mkPos D W) (s_ver s) (s_vh s)) | None => None end
+                                                else tree_get_slot b h').
+  { intros h'. rewrite (core_tree b4 b3 h' Hcore). unfold b3. destruct (N.eqb_spec h' h) as [->|Hne].
+    - destruct (tree_get_slot b h) as [s|] eqn:Es; [apply tree_put_same|]. change (tree_get_slot b2 h) with (tree_get_slot b h). exact Es.
+    - destruct (tree_get_slot b h); [rewrite tree_put_other by congruence|]; reflexivity. }
+  intros c e Hin Hr. cbn [gc_b gc_dst] in *. rewrite Hch4, Nat.eqb_refl, F3 in Hr. rewrite Hch4 in Hin. destruct Hr as (Hr1 & Hr2 & Hr3).
+  unfold cur_or_tomb. rewrite Htree4.
+  (* is it the record just written? *)
+  destruct (Nat.eqb_spec c D) as [Ec|Hnc].
+  - destruct e as [o r0]. destruct (N.eq_dec o W) as [Eo|Hno].
+    + (* the record just written (offsets are unique) *)
+      subst o. assert (r0 = r).
+      { destruct F1 as (_ & _ & Fnd & _). pose proof (find_off_in_nodup _ W r0 Fnd Hin) as Hf. unfold W in Hf. rewrite F4 in Hf. now injection Hf. }
+      subst r0. cbn [fst snd]. fold h. rewrite N.eqb_refl. destruct (tree_get_slot b h) as [s|] eqn:Es.
+      * left. eexists. split; [reflexivity|]. cbn [s_pos]. now rewrite Ec.
+      * right. split; [reflexivity|now apply Htomb].
+    + (* an older record of the destination that is still in the written region *)
+      destruct (F6 o r0 Hin) as [E|Hold]; [injection E as E1 E2; exfalso; apply Hno; exact E1|].
+      assert (Hend : rend (o, r0) <= W).
+      { specialize (Hr3 Ec). unfold nostraddle in G7. rewrite Forall_forall in G7. destruct (G7 _ Hold) as [Hle|Hge]; [exact Hle|].
+        exfalso. assert (Hnd : In (o, r0) (k_disk (append_gc_chunk kd r))) by exact Hin.
+        unfold append_gc_chunk in Hnd. cbn [k_disk] in Hnd. apply in_app_or in Hnd as [Hf|[E|[]]].
+        - apply filter_In in Hf as [_ Hf]. cbn [fst snd] in Hf. fold W in Hf. unfold rend in *. cbn [fst snd] in *. pose proof (dsize_pos r0). lia.
+        - injection E as E1 E2. exfalso. apply Hno. symmetry. exact E1. }
+      assert (Hreg : in_region D W c (o, r0)) by (split; [exact Hr1|split; [exact Hr2|intros _; exact Hend]]).
+      rewrite Ec in Hreg |- *.
+      destruct (H2 D (o, r0) Hold Hreg) as [(s & Hs & Hp)|[Hn Hv]]; cbn [fst snd] in *.
+      * destruct (N.eqb_spec (hf (d_key r0)) h) as [Eh|Hne]; [|left; exists s; auto].
+        exfalso. rewrite Eh in Hs. specialize (Hslot s Hs). rewrite Hp in Hslot. injection Hslot as E1 E2.
+        subst o. unfold rend in Hend. cbn [fst snd] in Hend. pose proof (dsize_pos r0).
+        pose proof (G11 E1 (off, r) (or_introl eq_refl)) as Hw. cbn [fst] in Hw. fold W in Hw. lia.
+      * destruct (N.eqb_spec (hf (d_key r0)) h) as [Eh|Hne]; [|right; auto].
+        rewrite Eh in Hn. fold b in Hn. rewrite Hn. right. auto.
+  - (* another chunk: untouched, the tree changed only at h *)
+    assert (Hreg : in_region D W c e) by (split; [exact Hr1|split; [exact Hr2|intros E; congruence]]).
+    destruct (H2 c e Hin Hreg) as [(s & Hs & Hp)|[Hn Hv]].
+    + destruct (N.eqb_spec (hf (d_key (snd e))) h) as [Eh|Hne]; [|left; exists s; auto].
+      exfalso. rewrite Eh in Hs. specialize (Hslot s Hs). rewrite Hp in Hslot. injection Hslot as E1 E2. lia.
+    + destruct (N.eqb_spec (hf (d_key (snd e))) h) as [Eh|Hne]; [|right; auto].
+      rewrite Eh in Hn. fold b in Hn. rewrite Hn. right. auto.
+Qed.
+Lemma gc2_record st src e R' : GI cf hf K b0 st src (e :: R') -> GX b0 st -> GC2 st -> GC2 (gc_record cf hf begin_ src st e).
+Proof.
+  intros HG HX H2. destruct e as [off r]. pose proof HG as (G1 & G2 & G3 & G4 & G5 & G6 & G7 & G8 & G9 & G10 & G11 & G12 & G13 & G14 & G15 & G16).
+  cbv zeta in G1, G2, G3, G4, G5, G6, G7, G8, G9, G10, G11, G12, G13, G14, G15, G16.
+  set (b := gc_b st) in *. set (D := gc_dst st) in *. set (h := hf (d_key r)). set (oldp := mkPos src off).
+  assert (Hin_e : In (off, r) (k_disk (chunk_at b src))) by (apply G10; now left).
+  destruct (G13 src (off, r) G6 Hin_e) as [Hfm_e Hk_e]. cbn [snd] in Hk_e. unfold rend in Hfm_e. cbn [fst snd] in Hfm_e.
+  assert (Hcopy : forall gs' vh, (forall s, tree_get_slot b h = Some s -> s_pos s = oldp) -> (tree_get_slot b h = None -> (d_ver r < 0)%Z /\ (0 < begin_)%nat) ->
+     GC2 (let '(b1, dst) := if c_filemax cf <? dsize r + k_whead (chunk_at b D)
+                           then (begin_gc_writing (trydump (end_gc_writing b D) D true) (S D) src, S D) else (b, D) in
+         let '(b2, noff) := append_gc b1 dst r in
+         let b3 := match tree_get_slot b h with
+                   | Some _ => match tree_get_slot b2 h with
+                               | Some s => if gc_repoint_conditional && negb (pos_eqb (s_pos s) oldp) then b2
+                                           else tree_put b2 h (mkSlot (mkPos dst noff) (s_ver s) (s_vh s))
+                               | None => b2 end
+                   | None => b2 end in
+         mkGC (hints_set cf b3 h (d_key r) (d_ver r) vh (mkPos dst noff) (dsize r) true) dst gs')).
+  { intros gs' vh Hslot Htomb. destruct (c_filemax cf <? dsize r + k_whead (chunk_at b D)) eqn:Efull.
+    - destruct (gi_switch cf hf K cap_pos b0 st src off r R' HG ltac:(fold b D; lia)) as (HS & HW0 & Htr). cbv zeta in HS, HW0, Htr. fold b D in HS, HW0, Htr.
+      pose proof (gc2_switch st src off r R' HG HX H2 ltac:(fold b D; lia)) as H2S. cbv zeta in H2S. fold b D in H2S.
+      set (b1 := begin_gc_writing (trydump (end_gc_writing b D) D true) (S D) src) in *.
+      pose proof (gc2_append (mkGC b1 (S D) (gc_stat st)) src off r R' gs' vh HS H2S) as HA. cbv zeta in HA. cbn [gc_b gc_dst] in HA.
+      rewrite append_gc_eq. rewrite append_gc_eq in HA. cbn [fst] in HA. rewrite HW0 in *.
+      change (tree_get_slot (set_chunk b1 (S D) (append_gc_chunk (chunk_at b1 (S D)) r)) h) with (tree_get_slot b1 h). rewrite !Htr in *.
+      fold h in HA. destruct (tree_get_slot b h) as [s|] eqn:Es.
+      + rewrite (Hslot s eq_refl). replace (pos_eqb oldp oldp) with true by (symmetry; now apply pos_eqb_eq). rewrite andb_false_r. cbn [negb].
+        apply HA; [intros s' Hs'; injection Hs' as <-; now apply Hslot|discriminate].
+      + apply HA; [intros s' Hs'; discriminate|intros _; now apply Htomb].
+    - pose proof (gc2_append st src off r R' gs' vh HG H2) as HA. cbv zeta in HA. fold b D in HA.
+      rewrite append_gc_eq. rewrite append_gc_eq in HA. cbn [fst] in HA.
+      change (tree_get_slot (set_chunk b D (append_gc_chunk (chunk_at b D) r)) h) with (tree_get_slot b h).
+      fold h in HA. destruct (tree_get_slot b h) as [s|] eqn:Es.
+      + rewrite (Hslot s eq_refl). replace (pos_eqb oldp oldp) with true by (symmetry; now apply pos_eqb_eq). rewrite andb_false_r. cbn [negb].
+        apply HA; [intros s' Hs'; injection Hs' as <-; now apply Hslot|discriminate].
+      + apply HA; [intros s' Hs'; discriminate|intros _; now apply Htomb]. }
+  assert (Hdrop : forall gs', GC2 (mkGC b D gs')) by (intros gs'; apply (gc2_frame b D gs' st eq_refl eq_refl H2)).
+  unfold gc_record. fold b D h oldp.
+  destruct (tree_get_slot b h) as [s|] eqn:Es.
+  - destruct (pos_eqb oldp (s_pos s)) eqn:Ep.
+    + cbn [negb]. apply pos_eqb_eq in Ep. apply Hcopy; [intros s' Hs'; injection Hs' as <-; now symmetry|discriminate].
+    + pose proof (no_collision hf K hf_inj b h (d_key r) G14 G2 Hk_e eq_refl) as Hnc.
+      destruct (get_collision_gc b h (d_key r)) as [x c]. cbn [snd] in Hnc. subst c.
+      destruct x as [[it ck]|]; cbn [negb]; apply Hdrop.
+  - destruct (Nat.ltb 0 begin_ && (d_ver r <? 0)%Z) eqn:En; cbn [negb]; [|apply Hdrop].
+    apply Hcopy; [intros s' Hs'; discriminate|]. intros _. apply andb_prop in En as [En0 En]. apply Nat.ltb_lt in En0. split; [lia|exact En0].
+Qed.
+
+Lemma gc_records_all src : forall recs st, GI cf hf K b0 st src recs -> GX b0 st -> GC2 st ->
+  GI cf hf K b0 (fold_left (gc_record cf hf begin_ src) recs st) src [] /\ GX b0 (fold_left (gc_record cf hf begin_ src) recs st) /\
+  GC2 (fold_left (gc_record cf hf begin_ src) recs st).
+Proof.
+  induction recs as [|e recs IH]; intros st HG HX H2; cbn [fold_left]; [split; [|split]; assumption|].
+  apply IH; [now apply (gc_record_inv cf hf K hf_inj cap_pos b0 begin_ st src e recs)|now apply (gx_record cf hf K cap_pos b0 begin_ st src e recs)|now apply (gc2_record st src e recs)].
+Qed.
+
+(* ---- the part of the first destination that was there before the pass ---- *)
+Definition GP (st : gcst) : Prop :=
+  (dst0 <= gc_dst st)%nat /\ (gc_dst st = dst0 -> W0 <= k_whead (chunk_at (gc_b st) dst0)) /\
+  (forall e, rend e <= W0 -> (In e (k_disk (chunk_at (gc_b st) dst0)) <-> In e (k_disk (chunk_at b0 dst0)))) /\
+  (forall e, In e (k_disk (chunk_at (gc_b st) dst0)) -> rend e <= W0 \/ W0 <= fst e).
+
+Lemma gp_frame b' D stat' st : gc_dst st = D -> (forall c, chunk_at b' c = chunk_at (gc_b st) c) -> GP st -> GP (mkGC b' D stat').
+Proof. intros <- Hc (P1 & P2 & P3 & P4). unfold GP. cbn [gc_b gc_dst]. rewrite Hc. auto. Qed.
+
+Lemma gp_record st src e R' : GI cf hf K b0 st src (e :: R') -> GP st -> GP (gc_record cf hf begin_ src st e).
+Proof.
+  intros HG (P1 & P2 & P3 & P4). pose proof HG as (G1 & G2 & G3 & G4 & G5 & G6 & G7 & G8 & _). cbv zeta in G1, G2, G3, G4, G5, G6, G7, G8.
+  set (b := gc_b st) in *. set (D := gc_dst st) in *.
+  assert (HDlt : (D < b_head b0)%nat) by lia.
+  pose proof (gc_record_shape cf hf begin_ src st e) as Hsh. cbv zeta in Hsh. set (st' := gc_record cf hf begin_ src st e) in *.
+  destruct Hsh as [[S1 S2]|[[S1 S2]|(S0 & S1 & S2)]]; unfold GP; rewrite S1, S2; fold b D.
+  - auto.
+  - destruct (Nat.eqb_spec dst0 D) as [E|Hne]; [|split; [exact P1|split; [intros E; congruence|split; [exact P3|exact P4]]]].
+    destruct (append_gc_chunk_facts (chunk_at b D) (snd e) (G4 D HDlt) G7) as (F1 & F2 & F3 & F4 & F5 & F6 & F7 & F8). cbv zeta in F1, F2, F3, F4, F5, F6, F7, F8.
+    specialize (P2 (eq_sym E)). rewrite E in P2. pose proof (dsize_pos (snd e)) as Hsz.
+    split; [exact P1|]. split; [intros _; rewrite F3; lia|]. split.
+    + intros x Hx. rewrite <- (P3 x Hx). rewrite E. destruct x as [o r0]. split.
+      * intros Hin. destruct (F6 o r0 Hin) as [Eq|Hold]; [|exact Hold]. injection Eq as -> ->. unfold rend in Hx. cbn [fst snd] in Hx. lia.
+      * intros Hin. apply F5; [exact Hin|]. left. unfold rend in Hx. cbn [fst snd] in Hx. lia.
+    + intros [o r0] Hin. destruct (F6 o r0 Hin) as [Eq|Hold]; [injection Eq as -> ->; right; cbn [fst]; exact P2|]. apply P4. now rewrite E.
+  - cbv zeta in S0, S2. fold b D in S0. replace (Nat.eqb dst0 (S D)) with false by (symmetry; apply Nat.eqb_neq; lia).
+    split; [lia|]. split; [intros E; lia|].
+    destruct (Nat.eqb_spec dst0 D) as [E|Hne]; [|split; [exact P3|exact P4]].
+    destruct (end_gc_chunk_facts (chunk_at b D) (G4 D HDlt) G7 G8) as (_ & _ & E3 & E4 & _). cbv zeta in E3, E4.
+    specialize (P2 (eq_sym E)). rewrite E in P2. split.
+    + intros x Hx. rewrite <- (P3 x Hx). rewrite E. split; [apply E4|].
+      destruct x as [o r0]. intros Hin. apply E3; [exact Hin|]. unfold rend in Hx. cbn [fst snd] in Hx. lia.
+    + intros x Hin. apply P4. rewrite E. now apply E4.
+Qed.
+
+Definition GA (st : gcst) (src : nat) (R : list (N * drec)) : Prop := GI cf hf K b0 st src R /\ GX b0 st /\ GC2 st /\ GP st.
+
+Lemma ga_records src : forall recs st, GA st src recs -> GA (fold_left (gc_record cf hf begin_ src) recs st) src [].
+Proof.
+  induction recs as [|e recs IH]; intros st HA; cbn [fold_left]; [exact HA|]. destruct HA as (HG & HX & H2 & HP).
+  apply IH. split; [now apply (gc_record_inv cf hf K hf_inj cap_pos b0 begin_ st src e recs)|].
+  split; [now apply (gx_record cf hf K cap_pos b0 begin_ st src e recs)|]. split; [now apply (gc2_record st src e recs)|now apply (gp_record st src e recs)].
+Qed.
+
+Lemma gc2_clear st src stat' : gc_dst st <> src -> GC2 st -> GC2 (mkGC (clear_chunk (gc_b st) src) (gc_dst st) stat').
+Proof.
+  intros Hne H2 c e Hin Hr. cbn [gc_b gc_dst] in *. unfold clear_chunk in Hin, Hr. rewrite chunk_at_set_other in Hr by congruence.
+  destruct (Nat.eq_dec src c) as [<-|Hn]; [rewrite chunk_at_set_same in Hin; destruct Hin|]. rewrite chunk_at_set_other in Hin by exact Hn.
+  exact (H2 c e Hin Hr).
+Qed.
+
+Lemma gp_clear st src stat' : (src <> dst0 \/ W0 = 0) -> GP st -> GP (mkGC (clear_chunk (gc_b st) src) (gc_dst st) stat').
+Proof.
+  intros Hs (P1 & P2 & P3 & P4). unfold GP. cbn [gc_b gc_dst]. unfold clear_chunk.
+  destruct (Nat.eq_dec src dst0) as [E|Hne].
+  - destruct Hs as [Hs|Hs]; [congruence|]. subst src. split; [exact P1|]. split; [intros _; lia|]. split.
+    + intros e He. pose proof (dsize_pos (snd e)). unfold rend in He. lia.
+    + intros e _. right. lia.
+  - rewrite chunk_at_set_other by exact Hne. auto.
+Qed.
+
+Lemma ga_file_step st src : GA st src (k_disk (chunk_at (gc_b st) src)) -> (src <> dst0 \/ W0 = 0) ->
+  let st' := gc_file cf hf begin_ st src in
+  GA st' src [] /\ (gc_dst st' <> src -> k_disk (chunk_at (gc_b st') src) = [] /\ k_size (chunk_at (gc_b st') src) = 0).
+Proof.
+  intros (HG & HX & H2 & HP) Hs. pose proof (gc_file_step cf hf K hf_inj cap_pos b0 begin_ st src HG HX) as (R1 & R2 & R3). cbv zeta in *.
+  split; [|exact R3]. split; [exact R1|]. split; [exact R2|]. clear R1 R2 R3.
+  unfold gc_file. destruct (k_size (chunk_at (gc_b st) src) =? 0) eqn:Ez; [split; assumption|].
+  set (b := gc_b st) in *. set (recs := k_disk (chunk_at b src)) in *.
+  set (st1 := mkGC (clear_hint_chunk b src) (gc_dst st) (gc_stat st)).
+  assert (HA1 : GA st1 src recs).
+  { split; [|split; [|split]].
+    - apply (gi_frame cf hf K b0 (clear_hint_chunk b src) (gc_dst st) (gc_stat st) st src recs eq_refl); [reflexivity| |exact HG]. apply iok_clear. apply HG.
+    - apply (gx_frame b0 (clear_hint_chunk b src) (gc_dst st) (gc_stat st) st eq_refl); [reflexivity|exact HX].
+    - apply (gc2_frame (clear_hint_chunk b src) (gc_dst st) (gc_stat st) st eq_refl); [reflexivity|exact H2].
+    - apply (gp_frame (clear_hint_chunk b src) (gc_dst st) (gc_stat st) st eq_refl); [reflexivity|exact HP]. }
+  destruct (ga_records src recs st1 HA1) as (_ & _ & H22 & HP2).
+  set (st2 := fold_left (gc_record cf hf begin_ src) recs st1) in *.
+  change gc_truncates_after_inplace with false. cbn [andb].
+  destruct (Nat.eqb_spec src (gc_dst st2)) as [E|Hne].
+  - set (b4 := if Nat.leb (b_nextgc (gc_b st2)) (S src) then set_nextgc (gc_b st2) (S src) else gc_b st2).
+    assert (Hc4 : core b4 = core (gc_b st2)) by (unfold b4; destruct (Nat.leb _ _); reflexivity).
+    split; [apply (gc2_frame b4 (gc_dst st2) (gc_stat st2) st2 eq_refl Hc4 H22)|].
+    apply (gp_frame b4 (gc_dst st2) (gc_stat st2) st2 eq_refl); [intros c; apply (core_chunk_at _ _ c Hc4)|exact HP2].
+  - set (b3 := clear_chunk (gc_b st2) src).
+    set (b4 := if Nat.leb (b_nextgc b3) (S src) then set_nextgc b3 (S src) else b3).
+    assert (Hc4 : core b4 = core b3) by (unfold b4; destruct (Nat.leb _ _); reflexivity).
+    pose proof (gc2_clear st2 src (gc_stat st2) ltac:(congruence) H22) as H23. pose proof (gp_clear st2 src (gc_stat st2) Hs HP2) as HP3. fold b3 in H23, HP3.
+    split; [apply (gc2_frame b4 (gc_dst st2) (gc_stat st2) (mkGC b3 (gc_dst st2) (gc_stat st2)) eq_refl Hc4 H23)|].
+    apply (gp_frame b4 (gc_dst st2) (gc_stat st2) (mkGC b3 (gc_dst st2) (gc_stat st2)) eq_refl); [intros c; apply (core_chunk_at _ _ c Hc4)|exact HP3].
+Qed.
+
+Lemma ga_files : forall n src st,
+  GA st src (k_disk (chunk_at (gc_b st) src)) -> (src + n < b_head b0)%nat ->
+  (forall c, (c < b_head b0)%nat -> spaced (k_disk (chunk_at b0 c))) -> ((dst0 < src)%nat \/ W0 = 0) ->
+  let st' := fold_left (gc_file cf hf begin_) (seq src (S n)) st in
+  GA st' (src + n)%nat [] /\
+  (gc_dst st' <> (src + n)%nat -> k_disk (chunk_at (gc_b st') (src + n)) = [] /\ k_size (chunk_at (gc_b st') (src + n)) = 0).
+Proof.
+  induction n as [|n IH]; intros src st HA Hlt Hsp Hs; cbn [seq fold_left]; cbv zeta.
+  - rewrite Nat.add_0_r. apply (ga_file_step st src HA). destruct Hs; [left; lia|now right].
+  - destruct (ga_file_step st src HA ltac:(destruct Hs; [left; lia|now right])) as [(H1 & H2 & H3 & H4) H5]. cbv zeta in H1, H2, H3, H4, H5.
+    set (st1 := gc_file cf hf begin_ st src) in *.
+    pose proof (gi_next cf hf K cap_pos b0 st1 src H1 H5 ltac:(lia) (Hsp (S src) ltac:(lia))) as HGn.
+    replace (src + S n)%nat with (S src + n)%nat by lia.
+    apply (IH (S src) st1); [split; [exact HGn|split; [exact H2|split; [exact H3|exact H4]]]|lia|exact Hsp|destruct Hs; [left; lia|now right]].
+Qed.
+End GV2b.
+
 Lemma pick_dst_gap cf b begin_ : forall n, (n <= begin_)%nat ->
   (forall c, (n <= c < begin_)%nat -> k_size (chunk_at b c) = 0) ->
   let d := pick_dst cf b n begin_ in
@@ -866,6 +1217,153 @@ Proof.
       exists r0. repeat (split; [assumption|]). exact A5.
   - intros k Hk. rewrite <- (Habs k Hk), <- (G16 k Hk). unfold abs. change (tree_get_slot b3 (hf k)) with (tree_get_slot be (hf k)).
     destruct (tree_get_slot be (hf k)) as [s|] eqn:Es; [|reflexivity]. destruct (Hslot3 _ s Es) as (r0 & L & L3). now rewrite L, L3.
+Qed.
+
+(* C18: what the files written by the pass contain afterwards *)
+Theorem gc_pass_reclaims b m begin_ end_ :
+  Rel hf K b m -> GPre b -> (begin_ <= end_ < b_head b)%nat ->
+  let b' := fst (gc_pass cf hf b begin_ end_ false) in
+  let dst0 := pick_dst cf (before_bucket cf b false) begin_ begin_ in
+  let W0 := if Nat.eqb dst0 begin_ then 0 else k_size (chunk_at b dst0) in
+  exists D, (dst0 <= begin_ /\ dst0 <= D <= end_)%nat /\
+    (forall c, (dst0 < c < begin_)%nat -> k_disk (chunk_at b c) = []) /\
+    (forall c e, (dst0 <= c <= D)%nat -> In e (k_disk (chunk_at b' c)) -> (c = dst0 -> W0 <= fst e) -> cur_or_tomb hf begin_ b' c e) /\
+    (forall c, (D < c <= end_)%nat -> k_disk (chunk_at b' c) = [] /\ k_size (chunk_at b' c) = 0) /\
+    (forall e, rend e <= W0 -> (In e (k_disk (chunk_at b' dst0)) <-> In e (k_disk (chunk_at b dst0)))) /\
+    (forall e, In e (k_disk (chunk_at b' dst0)) -> rend e <= W0 \/ W0 <= fst e) /\
+    (forall c, (c < b_head b)%nat -> gchunk (chunk_at b' c)).
+Proof.
+  intros HR (P2 & P3 & P4) Hrange. pose proof HR as [((Hok & Habove) & Hct & Hslots) Habs].
+  cbv zeta. unfold gc_pass. cbn [fst]. set (H0 := b_head b).
+  set (b1 := before_bucket cf b false).
+  assert (Hcore1 : core b1 = core b) by reflexivity.
+  assert (Hhint1 : b_hints b1 = b_hints b) by reflexivity.
+  assert (Hca1 : forall c, chunk_at b1 c = chunk_at b c) by (intros c; reflexivity).
+  destruct (pick_dst_gap cf b1 begin_ begin_ (le_n _) ltac:(intros c Hc; lia)) as [Hd1 Hd2]. cbv zeta in Hd1, Hd2.
+  set (dst0 := pick_dst cf b1 begin_ begin_) in *.
+  rewrite begin_gc_eq. set (kd0 := chunk_at b1 dst0).
+  assert (Hdlt : (dst0 < H0)%nat) by (unfold H0; lia).
+  destruct (begin_gc_chunk_facts kd0 (Nat.eqb dst0 begin_)) as (B1 & B2 & B3 & B4 & B5); [apply (P2 dst0 Hdlt)|]. cbv zeta in B1, B2, B3, B4, B5.
+  set (b2 := set_chunk b1 dst0 (begin_gc_chunk kd0 (Nat.eqb dst0 begin_))).
+  assert (Hca2 : forall c, chunk_at b2 c = if Nat.eqb c dst0 then begin_gc_chunk kd0 (Nat.eqb dst0 begin_) else chunk_at b c).
+  { intros c. unfold b2. destruct (Nat.eqb_spec c dst0) as [->|Hne]; [apply chunk_at_set_same|]. rewrite chunk_at_set_other by congruence. apply Hca1. }
+  assert (Hdisk2 : forall c, k_disk (chunk_at b2 c) = k_disk (chunk_at b c)).
+  { intros c. rewrite Hca2. destruct (Nat.eqb_spec c dst0) as [->|]; [exact B3|reflexivity]. }
+  assert (Hlog2 : forall p, log_find b2 p = log_find b p).
+  { intros p. unfold log_find, all_recs. rewrite Hdisk2, Hca2. destruct (Nat.eqb_spec (p_chunk p) dst0) as [E|]; [|reflexivity].
+    rewrite (proj1 B1), E. fold kd0. now rewrite (proj1 (proj1 (P2 dst0 Hdlt))). }
+  set (st0 := mkGC b2 dst0 gc0).
+  assert (HW0 : k_whead (chunk_at b2 dst0) = if Nat.eqb dst0 begin_ then 0 else k_size kd0) by (rewrite Hca2, Nat.eqb_refl; exact B5).
+  (* the invariant holds when the pass starts *)
+  assert (HG0 : GI cf hf K b st0 begin_ (k_disk (chunk_at (gc_b st0) begin_))).
+  { unfold GI. cbn [gc_b gc_dst st0]. fold H0. rewrite HW0.
+    split; [reflexivity|]. split; [exact Hct|].
+    split; [intros c Hc; rewrite Hca2; replace (Nat.eqb c dst0) with false by (symmetry; apply Nat.eqb_neq; unfold H0 in *; lia); reflexivity|].
+    split; [intros c Hc; rewrite Hca2; destruct (Nat.eqb c dst0); [exact B1|apply (P2 c Hc)]|].
+    split; [exact Hd1|]. split; [unfold H0; lia|].
+    split; [rewrite Hca2, Nat.eqb_refl; exact B2|].
+    split; [rewrite Hca2, Nat.eqb_refl, B4; destruct (Nat.eqb dst0 begin_); lia|].
+    split.
+    { intros c Hc. rewrite Hca2. replace (Nat.eqb c dst0) with false by (symmetry; apply Nat.eqb_neq; lia).
+      pose proof (Hd2 c Hc) as Hs. rewrite Hca1 in Hs. split; [|exact Hs]. apply gchunk_size0'; [apply (P2 c); unfold H0; lia|exact Hs]. }
+    split; [auto|]. split; [intros E e He; rewrite E, Nat.eqb_refl; lia|].
+    split; [rewrite Hdisk2; apply (P2 begin_); unfold H0; lia|].
+    split; [intros c e Hc He; rewrite Hdisk2 in He; now apply (P3 c)|].
+    split; [apply (iok_hints_same hf K b); [reflexivity|exact P4]|]. split.
+    - intros h s Hs. change (tree_get_slot b2 h) with (tree_get_slot b h) in Hs.
+      destruct (Hslots h s Hs) as (r0 & L & A1 & A2 & A3 & A4 & A5). exists r0. rewrite Hlog2.
+      repeat (split; [assumption|]).
+      destruct (Nat.eq_dec (p_chunk (s_pos s)) begin_) as [E|Hnb].
+      + right. right. split; [exact E|]. rewrite Hdisk2.
+        rewrite log_find_gchunk in L by (rewrite E; apply (P2 begin_); unfold H0; lia). rewrite E in L. now apply find_off_some_in.
+      + destruct (Nat.eq_dec (p_chunk (s_pos s)) dst0) as [E|Hnd]; [|left; now split].
+        right. left. split; [exact E|]. replace (Nat.eqb dst0 begin_) with false by (symmetry; apply Nat.eqb_neq; congruence).
+        rewrite log_find_gchunk in L by (rewrite E; apply (P2 dst0 Hdlt)). rewrite E in L. apply find_off_some_in in L.
+        destruct (P2 dst0 Hdlt) as [(_ & _ & _ & Hsz) _]. rewrite Forall_forall in Hsz. specialize (Hsz _ L). unfold rend in Hsz. exact Hsz.
+    - intros k Hk. unfold abs. change (tree_get_slot b2 (hf k)) with (tree_get_slot b (hf k)).
+      destruct (tree_get_slot b (hf k)); [now rewrite Hlog2|reflexivity]. }
+  assert (HX0 : GX b st0).
+  { unfold GX. cbn [gc_b gc_dst st0]. fold H0. split.
+    - rewrite Hca2, Nat.eqb_refl. unfold begin_gc_chunk. destruct (Nat.eqb dst0 begin_); cbn [k_rewriting k_whead k_size]; [now left|now right].
+    - intros c Hc Hne. rewrite Hca2. replace (Nat.eqb c dst0) with false by (symmetry; apply Nat.eqb_neq; exact Hne). apply Hok. }
+  set (W0 := if Nat.eqb dst0 begin_ then 0 else k_size (chunk_at b dst0)).
+  assert (HW0' : k_whead (chunk_at b2 dst0) = W0) by (rewrite HW0; reflexivity).
+  assert (HC0 : GC2 hf begin_ dst0 W0 st0).
+  { intros c e Hin (Hr1 & Hr2 & Hr3). cbn [gc_b gc_dst st0] in *. assert (c = dst0) by lia. subst c. rewrite HW0' in Hr3.
+    specialize (Hr2 eq_refl). specialize (Hr3 eq_refl). unfold rend in Hr3. pose proof (dsize_pos (snd e)). lia. }
+  assert (HP0 : GP b dst0 W0 st0).
+  { unfold GP. cbn [gc_b gc_dst st0]. split; [lia|]. split; [intros _; rewrite HW0'; lia|]. split; [intros e _; now rewrite Hdisk2|].
+    intros e He. rewrite Hdisk2 in He. unfold W0. destruct (Nat.eqb dst0 begin_); [right; lia|left].
+    destruct (P2 dst0 Hdlt) as [(_ & _ & _ & Hsz) _]. rewrite Forall_forall in Hsz. exact (Hsz e He). }
+  assert (Hs0 : (dst0 < begin_)%nat \/ W0 = 0).
+  { unfold W0. destruct (Nat.eqb_spec dst0 begin_) as [E|Hne]; [now right|left; lia]. }
+  destruct (ga_files cf hf K hf_inj cap_pos b begin_ dst0 W0 (end_ - begin_) begin_ st0) as [(HGe & HXe & HCe & HPe) Hlast].
+  { split; [exact HG0|]. split; [exact HX0|]. split; [exact HC0|exact HP0]. }
+  { fold H0. lia. }
+  { intros c Hc. apply (P2 c Hc). }
+  { exact Hs0. }
+  cbv zeta in HGe, HXe, HCe, HPe, Hlast. replace (S (end_ - begin_)) with (S end_ - begin_)%nat in HGe, HXe, HCe, HPe, Hlast by lia. fold b1 dst0 in HGe, HXe, HCe, HPe, Hlast.
+  replace (begin_ + (end_ - begin_))%nat with end_ in HGe, Hlast by lia.
+  set (st := fold_left (gc_file cf hf begin_) (seq begin_ (S end_ - begin_)) st0) in *.
+  destruct HGe as (G1 & G2 & G3 & G4 & G5 & G6 & G7 & G8 & G9 & G10 & G11 & G12 & G13 & G14 & G15 & G16). cbv zeta in *.
+  destruct HXe as [X1 X2]. cbv zeta in X1, X2. fold H0 in G1, G3, G4, G6, X2. destruct HPe as (Q1 & Q2 & Q3 & Q4).
+  set (be := gc_b st) in *. set (D := gc_dst st) in *.
+  assert (HDlt : (D < H0)%nat) by lia.
+  destruct (end_gc_chunk_facts (chunk_at be D) (G4 D HDlt) G7 G8) as (E1 & _ & E3 & E4 & E5 & E6). cbv zeta in E1, E3, E4, E5, E6.
+  destruct (E5 X1) as [E5a _].
+  rewrite end_gc_eq. set (b3 := set_chunk be D (end_gc_chunk (chunk_at be D))).
+  pose proof (trydump_core b3 D true) as Hcore.
+  assert (Hch : forall c, chunk_at (trydump b3 D true) c = if Nat.eqb c D then end_gc_chunk (chunk_at be D) else chunk_at be c).
+  { intros c. rewrite (core_chunk_at _ _ c Hcore). unfold b3. destruct (Nat.eqb_spec c D) as [->|Hne]; [apply chunk_at_set_same|apply chunk_at_set_other; congruence]. }
+  assert (Htr : forall h, tree_get_slot (trydump b3 D true) h = tree_get_slot be h) by (intros h; rewrite (core_tree _ _ h Hcore); reflexivity).
+  exists D. split; [lia|]. split.
+  { intros c Hc. apply gchunk_size0'; [apply (P2 c); unfold H0 in *; lia|]. rewrite <- Hca1. apply Hd2. exact Hc. }
+  split.
+  { intros c e Hc Hin Hlo. rewrite Hch in Hin.
+    assert (Hold : In e (k_disk (chunk_at be c)) /\ in_region dst0 W0 D (k_whead (chunk_at be D)) c e).
+    { destruct (Nat.eqb_spec c D) as [Ec|Hne].
+      - split; [rewrite Ec; now apply E4|]. split; [exact Hc|]. split; [exact Hlo|]. intros _. rewrite Forall_forall in E5a. specialize (E5a e Hin). now rewrite E6 in E5a.
+      - split; [exact Hin|]. split; [exact Hc|]. split; [exact Hlo|]. intros E. congruence. }
+    destruct (HCe c e (proj1 Hold) (proj2 Hold)) as [(s & Hs & Hp)|[Hn Hv]]; [left; exists s|right]; rewrite Htr; auto. }
+  split.
+  { intros c Hc. rewrite Hch. replace (Nat.eqb c D) with false by (symmetry; apply Nat.eqb_neq; lia).
+    destruct (Nat.eq_dec c end_) as [->|Hne]; [apply Hlast; lia|]. apply G9. lia. }
+  split.
+  { intros e He. rewrite <- (Q3 e He). rewrite Hch. destruct (Nat.eqb_spec dst0 D) as [E|Hne]; [|reflexivity].
+    rewrite E. split; [apply E4|]. destruct e as [o r0]. intros Hin. apply E3; [exact Hin|]. specialize (Q2 (eq_sym E)). rewrite E in Q2. unfold rend in He. cbn [fst snd] in He. lia. }
+  split.
+  { intros e Hin. rewrite Hch in Hin. apply Q4. destruct (Nat.eqb_spec dst0 D) as [E|Hne]; [|exact Hin]. rewrite E. now apply E4. }
+  intros c Hc. rewrite Hch. destruct (Nat.eqb c D); [apply E1|apply (G4 c Hc)].
+Qed.
+
+(* the files of the collected range themselves *)
+Corollary gc_pass_range_files b m begin_ end_ :
+  Rel hf K b m -> GPre b -> (begin_ <= end_ < b_head b)%nat ->
+  let b' := fst (gc_pass cf hf b begin_ end_ false) in
+  forall c e, (begin_ <= c <= end_)%nat -> In e (k_disk (chunk_at b' c)) ->
+    cur_or_tomb hf begin_ b' c e /\ find_off (k_disk (chunk_at b' c)) (fst e) = Some (snd e).
+Proof.
+  intros HR HP Hrange. cbv zeta. intros c e Hc Hin.
+  destruct (gc_pass_reclaims b m begin_ end_ HR HP Hrange) as (D & (Hd1 & Hd2) & _ & Hcur & Hemp & _ & _ & Hg). cbv zeta in *.
+  split.
+  - destruct (Nat.le_gt_cases c D) as [Hle|Hgt].
+    + apply Hcur; [lia|exact Hin|]. intros E. replace (Nat.eqb (pick_dst cf (before_bucket cf b false) begin_ begin_) begin_) with true by (symmetry; apply Nat.eqb_eq; lia). lia.
+    + destruct (Hemp c ltac:(lia)) as [He _]. rewrite He in Hin. destruct Hin.
+  - destruct (Hg c ltac:(lia)) as (_ & _ & Hnd & _). destruct e as [o r]. now apply find_off_in_nodup.
+Qed.
+
+Corollary gc_pass_range_once b m begin_ end_ :
+  Rel hf K b m -> GPre b -> (begin_ <= end_ < b_head b)%nat ->
+  let b' := fst (gc_pass cf hf b begin_ end_ false) in
+  forall c1 e1 c2 e2, (begin_ <= c1 <= end_)%nat -> (begin_ <= c2 <= end_)%nat ->
+    In e1 (k_disk (chunk_at b' c1)) -> In e2 (k_disk (chunk_at b' c2)) -> d_key (snd e1) = d_key (snd e2) ->
+    tree_get_slot b' (hf (d_key (snd e1))) <> None -> c1 = c2 /\ e1 = e2.
+Proof.
+  intros HR HP Hrange. cbv zeta. intros c1 e1 c2 e2 H1 H2 I1 I2 Hk Hs.
+  destruct (gc_pass_range_files b m begin_ end_ HR HP Hrange c1 e1 H1 I1) as [[(s1 & T1 & Q1)|[N1 _]] F1]; [|congruence].
+  destruct (gc_pass_range_files b m begin_ end_ HR HP Hrange c2 e2 H2 I2) as [[(s2 & T2 & Q2)|[N2 _]] F2]; [|rewrite <- Hk in N2; congruence].
+  cbv zeta in *. rewrite <- Hk, T1 in T2. injection T2 as <-. rewrite Q1 in Q2. injection Q2 as Ec Eo. split; [exact Ec|].
+  subst c2. rewrite <- Eo in F2. rewrite F1 in F2. destruct e1, e2. cbn [fst snd] in *. injection F2 as <-. now subst.
 Qed.
 End GV3.
 
